@@ -26,6 +26,7 @@ def dispatch (c : Case) : Verdict :=
   | "C08" => runC08 c
   | "FAULT" => runFault c
   | "EXIT" => runExit c
+  | "REORD" => runReord c
   | _ => { agree := false, spec := "na", model := "unknown-property" }
 
 end Gofasta.Driver
